@@ -31,6 +31,7 @@ RULE = (
     "or a special path; distinct = distinct file content. Thorough adds a coverage-guided atheris campaign over the file bytes."
     ' Round 5: non-finite and huge numbers for every field; missing file after the same object saved/loaded it before.'
     ' Round 6: missing file after the same object failed to load a damaged one.'
+    ' Round 7: lone surrogates, NUL, very long and non-ASCII-digit texts per field; odd keys enumerated.'
 )
 ASSUMPTIONS = ["real files in a scratch directory; running as root, so permission faults are represented by the directory case only"]
 SHRINK_STRINGS = ("data",)
@@ -172,6 +173,29 @@ def enumerate_cases(tier: str):
         doc["1"]["children"]["1"]["values"] = {"49": value, "x": "1"}
         yield {"kind": "content", "origin": "mutated", "data": json.dumps(doc)}
     rec = {"node_id": 1, "node_type": 17, "protocol_version": "2.0"}
+    # file TEXT that no dump of a Python object produces: repeated keys at every level, comments, trailing commas, odd number spellings,
+    # byte-order marks, compressed or binary content that starts like a known format
+    good = '{"node_id": 1, "node_type": 17, "protocol_version": "2.0", "children": {"1": {"child_id": 1, "child_type": 6, "values": {"0": "1"}}}}'
+    raw_texts = [
+        '{"1": ' + good + ', "1": ' + good + '}',
+        '{"1": {"node_id": 1, "node_id": 1, "node_type": 17, "protocol_version": "2.0"}}',
+        '{"1": {"node_id": 1, "node_type": 17, "protocol_version": "2.0", "children": {"1": {"child_id": 1, "child_type": 6}, "1": {"child_id": 1, "child_type": 7}}}}',
+        '{"1": {"node_id": 1, "node_type": 17, "protocol_version": "2.0", "children": {"1": {"child_id": 1, "child_type": 6, "values": {"0": "a", "0": "b"}}}}}',
+        '{"1": ' + good + ', "01": ' + good + '}', '{"1": ' + good + ',}', '{"1": ' + good + '} // comment', '/* c */ {"1": ' + good + '}', "{'1': 1}",
+        '{"1": {"node_id": 01, "node_type": 17, "protocol_version": "2.0"}}', '{"1": {"node_id": 1.0, "node_type": 1e1, "protocol_version": "2.0"}}',
+        '{"1": {"node_id": +1, "node_type": 17, "protocol_version": "2.0"}}', '{"1": {"node_id": 0x1, "node_type": 17, "protocol_version": "2.0"}}',
+        '\ufeff{"1": ' + good + '}', '{"1": ' + good + '}\x00', '{"1": ' + good + '}\n{"2": ' + good + '}', "{}{}", '{"1": ' + good[:-1],
+    ]
+    for text in raw_texts:
+        yield {"kind": "content", "origin": "raw-text", "data": text.encode("utf-8").decode("latin-1")}
+    import gzip as _gzip
+    import zlib as _zlib
+
+    packed = _gzip.compress(('{"1": ' + good + '}').encode(), mtime=0)
+    blobs = [packed, packed[:2], packed[:10], packed[:-8], packed[:-1], packed[:10] + b"garbage" * 5, b"\x1f\x8b", b"\x1f\x8b\x08", _zlib.compress(b"{}"), b"PK\x03\x04", b"BZh9", b"\xfd7zXZ\x00",
+             b"\x28\xb5\x2f\xfd", b"\x89PNG\r\n", b"SQLite format 3\x00", b"\x80\x04\x95", b"\x00\x00\x00\x00", b"\xff\xfe{\x00}\x00", b"\xfe\xff\x00{\x00}", b"+ADw-"]
+    for blob in blobs:
+        yield {"kind": "content", "origin": "binary", "data": blob.decode("latin-1")}
     for key in ("²", "1³", "①", "٣", "१", "9" * 4400, "-" + "9" * 4400, "\ud800", "1\x00", " 1", "1 ", "+1", "1_0", "0x1", "1e1"):
         yield {"kind": "content", "origin": "odd-key", "data": json.dumps({key: rec, "2": dict(rec, node_id=2)})}
         yield {"kind": "content", "origin": "odd-key", "data": json.dumps({"1": dict(rec, children={key: {"child_id": 1, "child_type": 6, "values": {key: "1"}}})})}
